@@ -26,6 +26,7 @@ PLAN = {'quick': [('exh', 8 * len(SEEDS_EXH)), ('hist', 6000), ('sim', 1000)],
 TIMEOUT = {'quick': 900, 'thorough': 6 * 3600}
 RECHECK = 100
 FIXED_KINDS = ('exh',)   # the exhaustive part is never scaled down
+NO_RUN_ALARM = True      # this scenario uses SIGALRM itself (unservable indices may loop forever)
 RULE = ('exh: for high in 1..8 and 24 master seeds, ALL indices < high and ALL index sequences '
         'of length <= 4 (<= 3 for high >= 6) sharing one cache (collisions in the draw stream '
         'are forced), plus unservable indices (== high, > high, negative) - exhaustive for that '
